@@ -24,7 +24,8 @@ import (
 
 // ---------------------------------------------------------------------------------------------
 // The fixed domain set.  Org is the KNOWN organizational domain, written by hand from the public
-// suffix list rules (com, org, net, uk, co.uk, org.uk, github.io (private), *.ck with !www.ck);
+// suffix list rules (com, org, net, uk, co.uk, org.uk, github.io (private), *.ck with !www.ck, s3.amazonaws.com (private),
+// *.kawasaki.jp with !city.kawasaki.jp);
 // a public suffix is its own organizational domain.  Nothing here is computed by a library.
 
 type Dom struct {
@@ -72,6 +73,20 @@ var Doms = []Dom{
 	{"bar.ck", "bar.ck", 3},
 	{"www.ck", "www.ck", 3},
 	{"sub.www.ck", "www.ck", 3},
+	// family 5: suffix rules BELOW a registrable name (private suffix s3.amazonaws.com under amazonaws.com;
+	// *.kawasaki.jp with !city.kawasaki.jp under kawasaki.jp): a name under such a rule is not in the
+	// organizational domain it is textually a sub-domain of
+	{"amazonaws.com", "amazonaws.com", 5},
+	{"mail.amazonaws.com", "amazonaws.com", 5},
+	{"s3.amazonaws.com", "s3.amazonaws.com", 5},
+	{"mallory.s3.amazonaws.com", "mallory.s3.amazonaws.com", 5},
+	{"x.mallory.s3.amazonaws.com", "mallory.s3.amazonaws.com", 5},
+	{"Mallory.S3.AmazonAWS.com", "mallory.s3.amazonaws.com", 5},
+	{"kawasaki.jp", "kawasaki.jp", 5},
+	{"foo.kawasaki.jp", "foo.kawasaki.jp", 5},
+	{"evil.foo.kawasaki.jp", "evil.foo.kawasaki.jp", 5},
+	{"city.kawasaki.jp", "city.kawasaki.jp", 5},
+	{"www.city.kawasaki.jp", "city.kawasaki.jp", 5},
 	// the domain of a DKIM 'none' result / of an empty MAIL FROM
 	{"", "", 4},
 }
